@@ -13,28 +13,38 @@ EXTENDS Naturals, Sequences, FiniteSets, TLC, Json, IOUtils, TLCExt
 VARIABLES lock,     \* [writer, readers]
           file,     \* [key -> value digest] : complete records
           pend,     \* pending puts of the open writing session: Seq([k, vd])
+          trying,   \* the put the open writing session is in the middle of ([k, vd] or NoTry)
+          tail,     \* [pid, recs] : what the last WEnd committed, until its process reports WDone or another session begins
+          dead,     \* processes that were killed (SIGKILL) so far
           ti, l
-vars == <<lock, file, pend, ti, l>>
+vars == <<lock, file, pend, trying, tail, dead, ti, l>>
 Traces == ndJsonDeserialize(IOEnv.TRACE_FILE)
 NT == Len(Traces)
 Tr == Traces[ti].ev
 Ev == Tr[l]
 None == "none"
+Victims == {Traces[ti].victims[i] : i \in 1..Len(Traces[ti].victims)}   \* processes the harness kills in this run (logged by the harness)
+NoTail == [pid |-> None, recs |-> <<>>]
+NoTry == [k |-> None, vd |-> None]
+Alive == Ev.pid \notin dead
 PKeys == {pend[i].k : i \in 1..Len(pend)}
 PMap(s) == [k \in {s[i].k : i \in 1..Len(s)} |-> (LET i == CHOOSE i \in 1..Len(s) : s[i].k = k IN s[i].vd)]
 
-TWBegin == /\ Ev.ev = "WBegin"
+TWBegin == /\ Ev.ev = "WBegin" /\ Alive /\ tail' = NoTail /\ trying' = NoTry /\ UNCHANGED dead
            /\ lock.writer = None /\ lock.readers = {}                 \* writers exclude everybody
            /\ Ev.nkeys = Cardinality(DOMAIN file)                     \* index refreshed: sees every committed record
            /\ lock' = [lock EXCEPT !.writer = Ev.pid] /\ pend' = <<>> /\ UNCHANGED file
-TWPut   == /\ Ev.ev = "WPut" /\ lock.writer = Ev.pid
+(* the session is about to put (k, vd): logged before the call, so that a process that dies inside the call is explained *)
+TWTry   == /\ Ev.ev = "WTry" /\ lock.writer = Ev.pid /\ trying' = [k |-> Ev.k, vd |-> Ev.vd]
+           /\ UNCHANGED <<lock, file, pend, tail, dead>>
+TWPut   == /\ Ev.ev = "WPut" /\ lock.writer = Ev.pid /\ trying' = NoTry /\ UNCHANGED <<tail, dead>>
            /\ IF Ev.out = "ok"
                 THEN /\ Ev.k \notin DOMAIN file /\ Ev.k \notin PKeys
                      /\ pend' = Append(pend, [k |-> Ev.k, vd |-> Ev.vd])
                 ELSE /\ (Ev.out = "KeyError" => (Ev.k \in DOMAIN file \/ Ev.k \in PKeys))
                      /\ pend' = pend
            /\ UNCHANGED <<lock, file>>
-TWGet   == /\ Ev.ev = "WGet" /\ lock.writer = Ev.pid
+TWGet   == /\ Ev.ev = "WGet" /\ lock.writer = Ev.pid /\ UNCHANGED <<tail, dead, trying>>
            /\ IF Ev.out = "ok" THEN ((Ev.k \in PKeys /\ PMap(pend)[Ev.k] = Ev.vd)
                                       \/ (Ev.k \in DOMAIN file /\ file[Ev.k] = Ev.vd))
                                ELSE (Ev.k \notin DOMAIN file /\ Ev.k \notin PKeys)
@@ -42,19 +52,24 @@ TWGet   == /\ Ev.ev = "WGet" /\ lock.writer = Ev.pid
 (* end of a writing session: every accepted put is committed; when a backend write was made to  *)
 (* fail during the final flush, a prefix of the queue is committed (which one is pinned down by  *)
 (* the key counts and reads of later sessions)                                                   *)
-TWEnd   == /\ Ev.ev = "WEnd" /\ lock.writer = Ev.pid
+TWEnd   == /\ Ev.ev = "WEnd" /\ lock.writer = Ev.pid /\ trying' = NoTry /\ UNCHANGED dead
            /\ \E n \in (IF Ev.fault = "flush" THEN 0..Len(pend) ELSE {Len(pend)}) :
-                 file' = file @@ PMap(SubSeq(pend, 1, n))
+                 /\ file' = file @@ PMap(SubSeq(pend, 1, n))
+                 /\ tail' = [pid |-> Ev.pid, recs |-> SubSeq(pend, 1, n)]
            /\ lock' = [lock EXCEPT !.writer = None] /\ pend' = <<>>
-TRBegin == /\ Ev.ev = "RBegin"
+(* the process left the `with` block: its session is complete, what it committed stays *)
+TWDone  == /\ Ev.ev = "WDone" /\ Alive /\ lock.writer # Ev.pid
+           /\ tail' = IF tail.pid = Ev.pid THEN NoTail ELSE tail
+           /\ UNCHANGED <<lock, file, pend, dead, trying>>
+TRBegin == /\ Ev.ev = "RBegin" /\ Alive /\ tail' = NoTail /\ UNCHANGED <<dead, trying>>
            /\ lock.writer = None /\ Ev.pid \notin lock.readers
            /\ Ev.nkeys = Cardinality(DOMAIN file)
            /\ lock' = [lock EXCEPT !.readers = @ \cup {Ev.pid}] /\ UNCHANGED <<file, pend>>
-TRGet   == /\ Ev.ev = "RGet" /\ Ev.pid \in lock.readers /\ lock.writer = None
+TRGet   == /\ Ev.ev = "RGet" /\ Ev.pid \in lock.readers /\ lock.writer = None /\ UNCHANGED <<tail, dead, trying>>
            /\ IF Ev.out = "ok" THEN (Ev.k \in DOMAIN file /\ file[Ev.k] = Ev.vd)   \* a reader sees only complete records
                                ELSE (Ev.k \notin DOMAIN file)
            /\ UNCHANGED <<lock, file, pend>>
-TREnd   == /\ Ev.ev = "REnd" /\ Ev.pid \in lock.readers
+TREnd   == /\ Ev.ev = "REnd" /\ Ev.pid \in lock.readers /\ UNCHANGED <<tail, dead, trying>>
            /\ lock' = [lock EXCEPT !.readers = @ \ {Ev.pid}] /\ UNCHANGED <<file, pend>>
 (* written as a value: a quantifier that is a conjunct of an action is evaluated by recursion over its range (thousands of keys) *)
 SameContent(c) == IF \A k \in DOMAIN file : c[k] = file[k] THEN TRUE ELSE FALSE
@@ -62,25 +77,46 @@ SameContent(c) == IF \A k \in DOMAIN file : c[k] = file[k] THEN TRUE ELSE FALSE
 (* after a session that ended with an exception, a foreign process obtained the write lock while   *)
 (* the session's process was idle (emitted outside the lock: no constraint on the model state)    *)
 (* a process finished constructing its handle (CtorTest..CtorRelease of Sessions.tla): the library is left as it is *)
-TMake   == /\ Ev.ev = "Make" /\ lock.writer # Ev.pid /\ Ev.pid \notin lock.readers /\ UNCHANGED <<lock, file, pend>>
-TProbe  == /\ Ev.ev = "Probe" /\ Ev.lock = "acquired" /\ UNCHANGED <<lock, file, pend>>
+TMake   == /\ Ev.ev = "Make" /\ Alive /\ lock.writer # Ev.pid /\ Ev.pid \notin lock.readers /\ UNCHANGED <<lock, file, pend, tail, dead, trying>>
+TProbe  == /\ Ev.ev = "Probe" /\ Alive /\ Ev.lock = "acquired" /\ UNCHANGED <<lock, file, pend, tail, dead, trying>>
+(* ----- killed processes (the C03 situation at system level) ------------------------------------------------ *)
+(* A process the harness kills dies at some moment between its last logged event and the harness' Kill event:     *)
+(* a silent step.  Its lock is released by the operating system.  Of the puts of its open writing session a        *)
+(* PREFIX reaches the file as complete records (a torn record is no record); if it had logged WEnd but not yet     *)
+(* WDone, the exit flush may have been cut short in the same way.  Nothing else about the library changes.         *)
+RemoveKeys(f, ks) == [k \in (DOMAIN f) \ ks |-> f[k]]
+Die(p) == /\ p \in Victims \ dead /\ dead' = dead \cup {p}
+          /\ IF lock.writer = p
+               THEN /\ \/ \E n \in 0..Len(pend) : file' = file @@ PMap(SubSeq(pend, 1, n))
+                       \/ /\ trying # NoTry /\ trying.k \notin DOMAIN file /\ trying.k \notin PKeys   \* the put it died in got through
+                          /\ file' = file @@ PMap(pend) @@ (trying.k :> trying.vd)
+                    /\ lock' = [lock EXCEPT !.writer = None] /\ pend' = <<>> /\ tail' = NoTail /\ trying' = NoTry
+               ELSE IF p \in lock.readers
+               THEN /\ lock' = [lock EXCEPT !.readers = @ \ {p}] /\ UNCHANGED <<file, pend, tail, trying>>
+               ELSE IF tail.pid = p
+               THEN /\ \E n \in 0..Len(tail.recs) :
+                         file' = RemoveKeys(file, {tail.recs[i].k : i \in (n + 1)..Len(tail.recs)})
+                    /\ tail' = NoTail /\ UNCHANGED <<lock, pend, trying>>
+               ELSE UNCHANGED <<lock, file, pend, tail, trying>>
+TKill   == /\ Ev.ev = "Kill" /\ Ev.victim \in dead /\ UNCHANGED <<lock, file, pend, tail, dead, trying>>
 TFinal  == /\ Ev.ev = "Final" /\ Ev.lock = "acquired"
            /\ lock.writer = None /\ lock.readers = {}                  \* every session released its lock
            /\ DOMAIN Ev.content = DOMAIN file
            /\ SameContent(Ev.content) = TRUE                            \* nothing lost, nothing altered
-           /\ UNCHANGED <<lock, file, pend>>
+           /\ UNCHANGED <<lock, file, pend, tail, dead, trying>>
 
 Step == /\ ti <= NT /\ l <= Len(Tr)
-        /\ (TWBegin \/ TWPut \/ TWGet \/ TWEnd \/ TRBegin \/ TRGet \/ TREnd \/ TMake \/ TProbe \/ TFinal)
+        /\ (TWBegin \/ TWPut \/ TWGet \/ TWEnd \/ TRBegin \/ TRGet \/ TREnd \/ TMake \/ TProbe \/ TFinal \/ TWDone \/ TKill \/ TWTry)
         /\ l' = l + 1 /\ ti' = ti
-Reset == lock' = [writer |-> None, readers |-> {}] /\ file' = <<>> /\ pend' = <<>>
+DieStep == /\ ti <= NT /\ l <= Len(Tr) /\ (\E p \in Victims : Die(p)) /\ UNCHANGED <<ti, l>>
+Reset == lock' = [writer |-> None, readers |-> {}] /\ file' = <<>> /\ pend' = <<>> /\ tail' = NoTail /\ dead' = {} /\ trying' = NoTry
 NextTrace == ti' = ti + 1 /\ l' = 1 /\ Reset
 Finish == /\ ti <= NT /\ l = Len(Tr) + 1
           /\ PrintT(<<"VERDICT", Traces[ti].tid, "ACCEPT">>) /\ NextTrace
 Stuck  == /\ ti <= NT /\ l <= Len(Tr) /\ ~ENABLED Step
           /\ PrintT(<<"VERDICT", Traces[ti].tid, "STUCK", l>>) /\ NextTrace
-TraceInit == lock = [writer |-> None, readers |-> {}] /\ file = <<>> /\ pend = <<>> /\ ti = 1 /\ l = 1
-TraceNext == Step \/ Finish \/ Stuck
+TraceInit == lock = [writer |-> None, readers |-> {}] /\ file = <<>> /\ pend = <<>> /\ tail = NoTail /\ dead = {} /\ trying = NoTry /\ ti = 1 /\ l = 1
+TraceNext == Step \/ DieStep \/ Finish \/ Stuck
 TraceSpec == TraceInit /\ [][TraceNext]_vars
 WriterExclusive == lock.writer # None => lock.readers = {}
 =============================================================================
